@@ -66,7 +66,10 @@ R_PSTR = ["dq", "univ", "chars", "seg", "sfx1", "sfx3", "sfx8", "copy"]
 R_PSTR_Q = ["dq", "univ", "chars", "seg", "sfx1", "sfx3"]
 
 UNALIGNED = ("seg", "sfx1", "sfx3")    # routes that make compare_pstr_slices start inside a cell
-MISMATCH = [("a", "b"), ("a", "é"), ("é", "è"), ("é", "z"), ("€", "₭"), ("😀", "😁")]
+MISMATCH = [("a", "b"), ("a", "é"), ("é", "è"), ("é", "z"), ("€", "₭"), ("😀", "😁"),
+            # a 4-byte character against a shorter one, and two 4-byte characters that differ in
+            # their FIRST byte (the decoding window must reach 4 bytes past the mismatch)
+            ("a", "😀"), ("é", "😀"), ("€", "😀"), ("😀", "\U0010FFFF")]
 
 ATOM_FAM = ["", "a", "ab", "b", "B", "\u00e9", "e\u0301", "\u20ac", "\U0010FFFF", "a\u00e9", "z", "[]", "{}", "a\x00",
             "a\x00b", "\ufffd", "\U00010000", "abcdef", "abcdefg", "abcdefgh", "abcde\u00e9", "abcd\u00e9"]
